@@ -38,6 +38,7 @@ def gen(rng, tier, idx):
     a['min_markers'] = max(1, a['min_markers'])
     if not bitwise:
         a['bootstrap_factor'] = 1.0
+        a['factor_lookup'] = None
     b = mapfam.draw_side_cfg(rng, a, wp['n_query'], same_chunks=bitwise)
     if not bitwise:
         b['rng_seed'] = rng.randrange(2 ** 31)
